@@ -47,6 +47,36 @@ Lemma dep_get_intro {A} (l : list A) n d x :
   nth_error l (Z.to_nat d) = Some x -> 0 <= d < Z.of_nat n -> dep_get l n d = Ok x.
 Proof. intros E R. apply dep_get_ok. auto. Qed.
 
+Lemma upd_nat_spec {A} (l : list A) : forall i v l',
+  upd_nat l i v = Ok l' ->
+  nth_error l' i = Some v /\ forall k, k <> i -> nth_error l' k = nth_error l k.
+Proof.
+  induction l as [|y l IH]; intros [|i] v l' H; cbn in H; try discriminate.
+  - injection H as <-. split; auto. intros [|k] Hk; [congruence|reflexivity].
+  - apply bind_ok in H as (r & Er & H). injection H as <-. destruct (IH _ _ _ Er) as (E1 & E2).
+    split; auto. intros [|k] Hk; [reflexivity|]. cbn. apply E2. congruence.
+Qed.
+
+(* add_annots only appends annotations, to the designated node *)
+Lemma add_annots_incl out j anns out3 : add_annots out j anns = Ok out3 ->
+  (forall k nd, nth_error out k = Some nd ->
+                exists nd3, nth_error out3 k = Some nd3 /\ incl (n_annots nd) (n_annots nd3)) /\
+  (forall nd, 0 <= j -> nth_error out (Z.to_nat j) = Some nd ->
+              exists nd3, nth_error out3 (Z.to_nat j) = Some nd3 /\ incl anns (n_annots nd3)).
+Proof.
+  unfold add_annots. destruct anns as [|a0 anns].
+  - intros H; injection H as <-. split.
+    + intros k nd E. exists nd. split; auto. apply incl_refl.
+    + intros nd _ E. exists nd. split; auto. intros x [].
+  - intros H. apply bind_ok in H as (nd0 & E0 & H). apply znth_ok in E0 as (J & E0).
+    unfold upd in H. replace (j <? 0) with false in H by lia.
+    destruct (upd_nat_spec _ _ _ _ H) as (U1 & U2). split.
+    + intros k nd E. destruct (Nat.eq_dec k (Z.to_nat j)) as [->|Nk].
+      * eexists. split; [exact U1|]. cbn. assert (nd = nd0) by congruence. subst. now apply incl_appl, incl_refl.
+      * exists nd. rewrite (U2 k Nk). split; auto. apply incl_refl.
+    + intros nd _ E. eexists. split; [exact U1|]. cbn. now apply incl_appr, incl_refl.
+Qed.
+
 Lemma Forall2_nth_error {A B} (R : A -> B -> Prop) l l' k a :
   Forall2 R l l' -> nth_error l k = Some a -> exists b, nth_error l' k = Some b /\ R a b.
 Proof.
@@ -565,9 +595,16 @@ Section MetaSem.
     eapply F; eauto. rewrite El, nth_error_app1 in E by lia. exact E.
   Qed.
 
+  (* the image of a mapped node carries (at least) its annotations *)
+  Definition annots_incl (pre out : list node) (m : list (option Z)) : Prop :=
+    forall i j, nth_error m i = Some (Some j) ->
+                exists nd nd', nth_error pre i = Some nd /\ 0 <= j /\ nth_error out (Z.to_nat j) = Some nd' /\
+                               incl (n_annots nd) (n_annots nd').
+
   Definition meta_sem (pre : list node) (st : meta_state * Z) : Prop :=
     let '(s, i) := st in
     i = Z.of_nat (length pre) /\ length (ms_map s) = length pre /\
+    annots_incl pre (ms_out s) (ms_map s) /\
     bounded (ms_map s) (length (ms_out s)) /\
     meta_ok pre (ms_map s) (ms_meta s) /\
     first_tape pre (ms_map s) /\
@@ -581,7 +618,7 @@ Section MetaSem.
     meta_sem (pre ++ [a]) st'.
   Proof.
     destruct st as [s i], st' as [s' i'].
-    intros El (I1 & I2 & I3 & Mo & I10 & Ity & I) St.
+    intros El (I1 & I2 & Ian & I3 & Mo & I10 & Ity & I) St.
     rewrite opt_meta_step_eq in St. unfold meta_step' in St. cbn [bind] in St.
     destruct (negb _); [discriminate|].
     apply bind_ok in St as (deps & Ed & St). cbv zeta in St.
@@ -603,6 +640,7 @@ Section MetaSem.
     specialize (Hnb Lo1).
     pose proof (meta_node_of_ext _ _ _ _ _ _ _ Em) as ((extra & Eex & _) & Hplain).
     assert (Lo2 : (length (ms_out s) < length out2)%nat) by (rewrite Eex, app_length; lia).
+    pose proof (add_annots_incl _ _ _ _ Ean) as (An1 & An2).
     apply add_annots_core in Ean.
     assert (Lo3 : length out3 = length out2).
     { apply (f_equal (@length _)) in Ean. now rewrite !map_length in Ean. }
@@ -641,6 +679,17 @@ Section MetaSem.
           cbn [n_deps]. eapply deps_tys; eauto.
         + intros dts D. rewrite Da in D. injection D as <-. exact Tya. }
     cbn [meta_sem ms_map ms_out ms_meta]. rewrite !app_length; cbn [length]. splits; try lia; auto.
+    - intros i0 j0 E0. apply nth_error_snoc_inv in E0 as [(L0 & E0)|(-> & E0)].
+      + destruct (Ian _ _ E0) as (nd & nd' & N1 & J & N2 & Inc).
+        assert (N2' : nth_error out2 (Z.to_nat j0) = Some nd').
+        { rewrite Eex. unfold out1. now apply nth_error_app1', nth_error_app1'. }
+        destruct (An1 _ _ N2') as (nd3 & N3 & Inc3).
+        exists nd, nd3. repeat split; auto using nth_error_app1'. eapply incl_tran; eauto.
+      + injection E0 as ->. destruct Hnb as (Hn0 & Hn1).
+        assert (exists nd2, nth_error out2 (Z.to_nat nn) = Some nd2) as (nd2 & N2).
+        { clear An1 An2. destruct (nth_error out2 (Z.to_nat nn)) eqn:X; eauto. apply nth_error_None in X. lia. }
+        destruct (An2 _ Hn0 N2) as (nd3 & N3 & Inc3).
+        exists a, nd3. rewrite I2, nth_error_snoc. repeat split; auto.
     - rewrite Lo3. apply bounded_snoc; [eapply bounded_mono; eauto; lia|].
       intros j E; injection E as <-. exact Hnb.
     - assert (Mx : meta_ok (pre ++ [a]) (ms_map s ++ [Some nn]) (ms_meta s)) by now apply meta_ok_ext.
@@ -669,6 +718,7 @@ Section MetaSem.
     apply (fold_res_inv (opt_meta_step o) meta_sem).
     - apply opt_meta_step_strict.
     - cbn. splits; auto using bounded_nil.
+      + intros [|i0] j E; discriminate.
       + intros i0 e [].
       + intros [|i0] nd0 j E; discriminate.
       + intros _ [|i0] nd0 E; discriminate.
@@ -687,12 +737,13 @@ Theorem meta_sem_thm infer nodes o p tape vals :
   opt_meta nodes o = Ok p ->
   ft_first from_tape nodes (po_map p) /\
   (typed_nodes infer nodes -> typed_nodes infer (po_nodes p)) /\
+  annots_incl nodes (po_nodes p) (po_map p) /\
   forall tape', tape_compat from_tape nodes (po_map p) tape tape' ->
     exists vals', valuation eval_node from_tape (po_nodes p) tape' vals' /\
                   sim nodes (po_nodes p) vals vals' (po_map p).
 Proof.
   intros V Ct Rg Sm Ty H. rewrite opt_meta_unfold in H.
   apply bind_ok in H as ([s i] & E & H). injection H as <-. cbn [po_nodes po_map].
-  apply (meta_sem_inv nodes o tape vals V Ct Rg Sm Ty infer) in E as (_ & L & _ & _ & F & T & I).
-  split; [|split; auto]. apply first_tape_ft with (pre := nodes) (post := []); auto. now rewrite app_nil_r.
+  apply (meta_sem_inv nodes o tape vals V Ct Rg Sm Ty infer) in E as (_ & L & An & _ & _ & F & T & I).
+  split; [|split; [auto|split; auto]]. apply first_tape_ft with (pre := nodes) (post := []); auto. now rewrite app_nil_r.
 Qed.
